@@ -35,6 +35,8 @@
 (*   actions LeakRaise (fallback setlocale fails -> bare locale.Error, the *)
 (*   lock stays held), YieldHolding (generator yields inside the `with`)   *)
 (*   LeaveHolding (operand pulled lazily inside the `with`) and            *)
+(*   EnterWithoutLock (acquire with a time-out whose False result is       *)
+(*   ignored: entered although another thread holds the lock) and          *)
 (*   ReenterHolding (the site calls itself for the members of a map or an  *)
 (*   array inside the `with`: the nested call asks for the lock again;     *)
 (*   property: the nested comparison reuses the active context, Recurse).  *)
@@ -56,6 +58,7 @@ CONSTANTS
   MaxDepth,   \* live frames per thread
   MaxItems,   \* items yielded per generator (0 = unbounded, trace validation only)
   Variant,    \* "property" | "pinned" | "union"
+  TimedAcquire, \* TRUE: the pinned variant may also enter on an acquire() time-out (EnterWithoutLock)
   Transient   \* TRUE: setlocale may fail for an installed locale as well, or raise another exception
 
 VARIABLES inst, lc0, lc, owner, frames, calls
@@ -209,6 +212,28 @@ Acquire(t) ==     \* _locale_collate_lock.acquire()
   /\ owner' = t
   /\ UNCHANGED <<inst, lc0, lc, calls>>
 
+(* FAULT of the environment: the holder keeps the lock for a long time (a long collation-aware *)
+(* operation: distinct-values / index-of / deep-equal / max compare whole sequences inside   *)
+(* one context).  A thread that asks for the lock meanwhile WAITS, however long: whatever    *)
+(* time-out its acquire() has, it does not enter (LongHold changes nothing).                 *)
+LongHold(t) ==
+  /\ Run(t) # 0
+  /\ LET f == frames[t][Run(t)] IN f.pc = "start" /\ Loc(f.c) # "none" /\ ArgsReady(f)
+  /\ owner # 0 /\ owner # t
+  /\ UNCHANGED vars
+
+(* DEVIATION: acquire(timeout=..) / acquire(blocking=False) whose False result is ignored:   *)
+(* the late comer goes on WITHOUT the lock, saves the holder's temporary LC_COLLATE as the   *)
+(* value to restore and finally releases the holder's lock                                   *)
+EnterWithoutLock(t) ==
+  LET r == Run(t) IN
+  /\ Pinned /\ TimedAcquire /\ r # 0
+  /\ LET f == frames[t][r] IN
+       /\ f.pc = "start" /\ Loc(f.c) # "none" /\ ArgsReady(f)
+       /\ owner # 0 /\ owner # t
+       /\ SetF(t, r, [f EXCEPT !.pc = "acq", !.hold = TRUE])
+  /\ UNCHANGED <<inst, lc0, lc, owner, calls>>
+
 ReadCurrent(t) == \* self._current_lc_collate = locale.getlocale(LC_COLLATE)
   LET r == Run(t) IN
   /\ r # 0
@@ -346,7 +371,7 @@ Abandon(t, i) ==     \* the consumer drops the generator: GeneratorExit runs __e
 
 (* everything a thread does once it has been called (the obligations of fairness) *)
 ThreadStep(t) ==
-  \/ EvalArgs(t) \/ LeaveHolding(t) \/ Recurse(t) \/ ReenterHolding(t) \/ ResumeLazy(t) \/ ArgError(t) \/ Enter0(t) \/ Acquire(t) \/ ReadCurrent(t)
+  \/ EvalArgs(t) \/ LeaveHolding(t) \/ Recurse(t) \/ ReenterHolding(t) \/ ResumeLazy(t) \/ ArgError(t) \/ Enter0(t) \/ Acquire(t) \/ EnterWithoutLock(t) \/ ReadCurrent(t)
   \/ \E res \in {"ok", "fail", "crash"} : SetLocale(t, res)
   \/ \E res \in {"ok", "fail"} : Fallback(t, res)
   \/ RaiseFromEnter(t) \/ LeakRaise(t) \/ Exit(t) \/ ExitGen(t) \/ Unwind(t)
@@ -366,6 +391,8 @@ Next ==
   \/ \E t \in Threads : ArgError(t)
   \/ \E t \in Threads : Enter0(t)
   \/ \E t \in Threads : Acquire(t)
+  \/ \E t \in Threads : LongHold(t)
+  \/ \E t \in Threads : EnterWithoutLock(t)
   \/ \E t \in Threads : ReadCurrent(t)
   \/ \E t \in Threads, res \in {"ok", "fail", "crash"} : SetLocale(t, res)
   \/ \E t \in Threads, res \in {"ok", "fail"} : Fallback(t, res)
@@ -407,6 +434,9 @@ NoSelfWait == \A t \in Threads : ~SelfWait(t)
 (* the lock is held by a live `with` frame of the owner and by nothing else           *)
 OwnerHolds == owner # 0 => Holds(owner)
 HoldIsOwner == \A t \in Threads : Holds(t) => owner = t
+(* mutual exclusion: at most one thread is between acquire and release (so that nobody but    *)
+(* the holder can release, and nobody saves a temporary LC_COLLATE as the value to restore)   *)
+MutualExclusion == Cardinality({t \in Threads : Holds(t)}) <= 1
 (* LC_COLLATE differs from the initial value only under the lock                      *)
 LockedWhenChanged == lc # lc0 => owner # 0
 (* property design: nothing is suspended inside a critical section                    *)
@@ -417,7 +447,7 @@ OneRunning ==
 (* some thread can always move unless everything has returned                         *)
 NoStuck == Quiescent \/ \E t \in Threads : ENABLED ThreadStep(t)
 
-Safety == /\ NoLockLeak /\ LocaleRestored /\ NoSelfWait /\ OwnerHolds /\ HoldIsOwner
+Safety == /\ NoLockLeak /\ LocaleRestored /\ NoSelfWait /\ OwnerHolds /\ HoldIsOwner /\ MutualExclusion
           /\ LockedWhenChanged /\ OneRunning /\ NoStuck
 
 (* under weak fairness every call eventually returns                                  *)
